@@ -81,26 +81,47 @@ def encOfDataCoding (v : Nat) : Except Exc Enc :=
 /-- the codec `from_pdu` ends up decoding with -/
 def decodeCodec (e : Enc) : Codec := if e.codec = .missing then .ascii else e.codec
 
+/-- the element walk of `decode_message`: `while ind + 2 <= udh_len + 1`; the last concatenation
+    element (8-bit: id 0, length 3; 16-bit: id 8, length 4) wins, other elements are skipped -/
+def udhLoop (raw : List Nat) (udhLen : Nat) :
+    Nat → Nat → Option (Nat × Nat × Nat) → Except Exc (Option (Nat × Nat × Nat))
+  | 0, _, acc => .ok acc
+  | fuel + 1, ind, acc =>
+    if ind + 2 ≤ udhLen + 1 then
+      if ind + 2 ≤ raw.length then
+        let ieId := raw.getD ind 0
+        let ieLen := raw.getD (ind + 1) 0
+        if ieId = Gen.Consts.ieId16 ∧ ieLen = 4 then
+          if ind + 6 ≤ raw.length then
+            udhLoop raw udhLen fuel (ind + 2 + ieLen)
+              (some (beVal ((raw.drop (ind + 2)).take 2), raw.getD (ind + 4) 0, raw.getD (ind + 5) 0))
+          else .error .structError
+        else if ieId = Gen.Consts.ieId8 ∧ ieLen = 3 then
+          if ind + 5 ≤ raw.length then
+            udhLoop raw udhLen fuel (ind + 2 + ieLen)
+              (some (raw.getD (ind + 2) 0, raw.getD (ind + 3) 0, raw.getD (ind + 4) 0))
+          else .error .structError
+        else udhLoop raw udhLen fuel (ind + 2 + ieLen) acc
+      else .error .structError
+    else .ok acc
+
 /-- `decode_message(raw)`: text and the synthetic SAR parameters of a UDH -/
 def decodeMessage (esm : Nat) (codec : Codec) (raw : List Nat) : Except Exc (List Nat × List Tlv) :=
   if esm % 128 ≥ 64 then
-    match unpackU 1 raw 0, unpackU 1 raw 1 with
-    | .ok udhLen, .ok ieId =>
-      let r : Except Exc (Nat × Nat) :=
-        if ieId = Gen.Consts.ieId16 then (unpackU 2 raw 3).map fun v => (v, 5)
-        else (unpackU 1 raw 3).map fun v => (v, 4)
-      match r with
+    match unpackU 1 raw 0 with
+    | .error e => .error e
+    | .ok udhLen =>
+      match udhLoop raw udhLen 130 1 none with
       | .error e => .error e
-      | .ok (ref, ind) =>
-        match unpackU 1 raw ind, unpackU 1 raw (ind + 1) with
-        | .ok total, .ok sq =>
-          match codecDecode codec (raw.drop (udhLen + 1)) with
-          | .error e => .error e
-          | .ok text =>
+      | .ok concat =>
+        match codecDecode codec (raw.drop (udhLen + 1)) with
+        | .error e => .error e
+        | .ok text =>
+          match concat with
+          | some (ref, total, sq) =>
             .ok (text, [⟨Gen.Tlv.sarMsgRefNum, .int ref⟩, ⟨Gen.Tlv.sarSegmentSeqnum, .int sq⟩,
                         ⟨Gen.Tlv.sarTotalSegments, .int total⟩])
-        | _, _ => .error .structError
-    | _, _ => .error .structError
+          | none => .ok (text, [])
   else (codecDecode codec raw).map fun t => (t, [])
 
 /-- the TLV loop: `while index < header.pdu_length` -/
@@ -200,7 +221,9 @@ def bindFromPdu (pdu : List Nat) (h : Header) : Except Exc BindReq := do
            interfaceVersion := iv, addrTon := ton, addrNpi := npi, addressRange := range }
 
 /-- `BindTransceiverResp.from_pdu` -/
-def bindRespFromPdu (pdu : List Nat) (h : Header) : Except Exc BindResp := do
+def bindRespFromPdu (pdu : List Nat) (h : Header) : Except Exc BindResp :=
+  if h.pduLength ≤ 16 then .ok { seq := h.seq, status := h.status, systemId := [], scVersion := none }
+  else do
   let e ← indexNul pdu 16
   let sid ← decodeAsciiStrict (slice pdu 16 e)
   let i := e + 1
